@@ -400,7 +400,7 @@ namespace lang
 namespace std
 {
 template <size_t I, typename T>
-T& get(nitro::lang::fixed_vector<T>& c) noexcept
+T& get(nitro::lang::fixed_vector<T>& c)
 {
     return c.at(I);
 }
